@@ -26,6 +26,7 @@ def floatOps : ROps CF Float where
   one := 1.0
   add := (· + ·)
   sub := (· - ·)
+  mul := (· * ·)
   div := (· / ·)
   neg := fun x => -x
   sqrt := Float.sqrt
